@@ -22,9 +22,13 @@ MsgPool == { <<M("send", "self")>>, <<M("send", "self"), M("delegate", "self")>>
 
 Init == S = InitState /\ sched = <<>> /\ todo = <<>>
 
-Pool(S0) ==
-         RelayActs(S0) \cup InitActs(Signers, Owners) \cup WrongSideActs(S0, Owners)
-    \cup SendActs(Signers, Owners, MsgPool, {"short", "long"})
+\* candidate pool of a step; the message list, ordering and encoding of the step's candidates are drawn beforehand
+\* (keeps the pool - and the number of Step evaluations per step - small)
+Pool(S0, l, r, e) ==
+         RelayActs(S0) \cup WrongSideActs(S0, Owners)
+    \cup { [a |-> "Register", signer |-> s, owner |-> o, order |-> r, enc |-> e] : s \in Signers, o \in Owners }
+    \cup { [a |-> "OpenInit", signer |-> s, owner |-> o, order |-> r, enc |-> e, cpport |-> p] : s \in Signers, o \in Owners, p \in {"icahost", "other"} }
+    \cup SendActs(Signers, Owners, {l}, {"short", "long"})
     \cup {[a |-> "Wait"]} \cup { [a |-> "SetAllow", allow |-> al] : al \in Allows }
 
 ClassOf(a) == CASE a.a \in {"Register", "OpenInit"} -> "Init"
@@ -34,8 +38,8 @@ ClassOf(a) == CASE a.a \in {"Register", "OpenInit"} -> "Init"
 Weights == <<"Init", "Relay", "Relay", "Relay", "Relay", "SendTx", "SendTx", "SendTx", "Recv", "Recv", "Recv",
              "Timeout", "Timeout", "Wait", "SetAllow", "Wrong">>
 
-OkOf(S0, cls) == { a \in Pool(S0) : ClassOf(a) = cls /\ Step(S0, a).res = "ok" }
-AdvOf(S0, cls) == { a \in Pool(S0) : ClassOf(a) = cls }
+OkOf(P, S0, cls) == { a \in P : ClassOf(a) = cls /\ Step(S0, a).res = "ok" }
+AdvOf(P, cls) == { a \in P : ClassOf(a) = cls }
 AdvWeights == <<"Init", "Relay", "Relay", "Relay", "SendTx", "SendTx", "Recv", "Recv", "Timeout", "Timeout", "Wrong", "Wrong">>
 
 \* ---- macros ------------------------------------------------------------------------------------
@@ -86,8 +90,9 @@ Next ==
     /\ Len(sched) < Depth
     /\ \E roll \in { RandomElement(1..100) } :
        \E ms \in { IF todo = <<>> /\ roll <= MACRO_PCT THEN Macros(S)[RandomElement(1..Len(Macros(S)))] ELSE {} } :
-       \E oks \in { IF todo = <<>> /\ ms = {} /\ roll <= MACRO_PCT + HONEST_PCT THEN OkOf(S, Weights[RandomElement(1..Len(Weights))]) ELSE {} } :
-       \E adv \in { IF todo = <<>> /\ ms = {} /\ oks = {} THEN AdvOf(S, AdvWeights[RandomElement(1..Len(AdvWeights))]) ELSE {} } :
+       \E P \in { IF todo = <<>> /\ ms = {} THEN Pool(S, RandomElement(MsgPool), RandomElement(Orders), RandomElement(Encs)) ELSE {} } :
+       \E oks \in { IF todo = <<>> /\ ms = {} /\ roll <= MACRO_PCT + HONEST_PCT THEN OkOf(P, S, Weights[RandomElement(1..Len(Weights))]) ELSE {} } :
+       \E adv \in { IF todo = <<>> /\ ms = {} /\ oks = {} THEN AdvOf(P, AdvWeights[RandomElement(1..Len(AdvWeights))]) ELSE {} } :
        \E plan \in { IF todo # <<>> THEN todo
                      ELSE IF ms # {} THEN RandomElement(ms)
                      ELSE IF oks # {} THEN <<RandomElement(oks)>>
